@@ -136,12 +136,12 @@ def run(tier, seed):
                                 'ins_zins', 'ins_half', 'r_equiv', 'skin_zint', 'cond_of_res'),
                    extra_vo=('Proofs/Loads.v', 'Proofs/Circuit.v', 'Proofs/Distributed.v', 'Model/Loads.v', 'Corr/LoadDriver.v'))
     rng = random.Random(seed)
-    out, errs = stage_lin.run_stage(chk, rng, 32 if tier == 'quick' else 300)
+    out, errs = stage_lin.run_stage(chk, rng, 32 if tier == 'quick' else 1200)
     for r, o, mt in out:
         chk.add_case(json.dumps(r['spec'], sort_keys=True), len(o['att']) > 0)
     for r in errs:
         report_error(chk, 'lin', r)
-    run_dload(chk, rng, 32 if tier == 'quick' else 300)
-    nor = 16 if (tier == 'quick' and not chk.broken) else (48 if tier == 'quick' else 200)
+    run_dload(chk, rng, 32 if tier == 'quick' else 1200)
+    nor = 16 if (tier == 'quick' and not chk.broken) else (48 if tier == 'quick' else 800)
     run_oracle(chk, rng, nor)
     return chk.finish()
